@@ -104,6 +104,19 @@ CHECKS["C19"] = dict(
     note="Trusted: rustc, the linker, layout of repr(Rust) structs across crates, PrefixTreeN set semantics (C08). Programs are sampled (kernels, seeded "
          "random programs; thorough: also the repository's own theories); tables are decided by the solver for universes of 2 (quick) and 3 (thorough) elements.")
 
+CHECKS["C18"] = dict(
+    technique="bounded verification by SAT: the real toposort.rs is executed symbolically (syn AST -> predicated execution, queue loop unrolled #objects+1 times with bound assertion) on symbolic multigraphs and symbolic new/old splits; self-composition for split independence",
+    text="The real eqlog-runtime/src/toposort.rs (morphism_toposort with its get_cod closure) is executed symbolically for every set of objects, every "
+         "dom / cod relation over them (morphisms may lack either) and every new/old split of the three tables within the bound. The solver shows: no "
+         "panic (unwrap on None, in-degree underflow) is reachable; with a functional cod, Err is returned iff the morphisms with dom and cod contain a "
+         "directed cycle (reference: reachability matrix inside the query); on Ok every (dom row, morphism with a cod) appears exactly once with that dom "
+         "and a cod of the morphism and nothing else appears; no morphism into X appears after a morphism out of X; verdict and output multiset coincide "
+         "for two arbitrary splits of the same tables. Counterexamples are replayed against the real runtime; the interpreter itself is validated on "
+         "random concrete inputs against the natively compiled function on every run.",
+    design_ref="§4 C18, §9",
+    note="Trusted: PrefixTree1/2 as ordered tuple sets (get / iter by contract; C08), BTreeMap / VecDeque semantics of the interpreter. Precondition "
+         "(from the generated caller): every dom / cod value is an object. Bounds: up to 3 objects x 3 morphism ids (quick), 4 x 4 (thorough).")
+
 NOT_APPLICABLE = {
     "C02": "check not built yet (ghost-model soundness lemma planned, DESIGN.md §9)",
     "C03": "check not built yet (follows from C01 + C02 lemmas; idempotence lemma planned)",
